@@ -20,14 +20,15 @@ def sortByKey (le : κ → κ → Bool) (m : List (κ × ν)) : List (κ × ν) 
 
 namespace Amount
 
-/-- `impl Display for InlinePrintAmount`: `0`, `v c`, or `(v1 c1 + v2 c2 + …)` in commodity order. -/
-def inlineDisplay (le : κ → κ → Bool) (showEntry : κ → Rat → String) : Amount κ → String
+/-- `impl Display for InlinePrintAmount`: `0`, `v c`, or `(v1 c1 + v2 c2 + …)` in commodity order.
+Generic in the value type so that the driver can run it on the decimal *text* okane printed. -/
+def inlineDisplay (le : κ → κ → Bool) (showEntry : κ → ν → String) : List (κ × ν) → String
   | [] => "0"
   | [(c, v)] => showEntry c v
   | a => "(" ++ " + ".intercalate ((sortByKey le a).map fun kv => showEntry kv.1 kv.2) ++ ")"
 
 /-- `InlinePrintAmount` **before** fix 9572056 (kept to state what the fix repaired): entries in map order. -/
-def inlineDisplayUnsorted (showEntry : κ → Rat → String) : Amount κ → String
+def inlineDisplayUnsorted (showEntry : κ → ν → String) : List (κ × ν) → String
   | [] => "0"
   | [(c, v)] => showEntry c v
   | a => "(" ++ " + ".intercalate (a.map fun kv => showEntry kv.1 kv.2) ++ ")"
@@ -70,5 +71,27 @@ def pushRecords [DecidableEq κ] (repo : AMap (κ × κ) (List (Date × Rat))) :
     List ((κ × κ) × Date × Rat) → AMap (κ × κ) (List (Date × Rat))
   | [] => repo
   | (k, r) :: rest => pushRecords (AMap.insert repo k (((AMap.get? repo k).getD []) ++ [r])) rest
+
+/-! ## Rewrite rules: the AND-element of a matcher (`MatchAndExpr::extract` in `cli/src/import/extract.rs`)
+
+`matchers.iter().try_fold(current, |prev, m| m.captures(&prev, entity).map(|c| prev + c))`, where `matchers` is built
+from `FieldMatcher.fields : HashMap<RewriteField, String>` in iteration order.  Abstractly a matcher reads the payee
+captured so far and either fails or yields a new capture. -/
+
+/-- one field matcher: given the payee captured so far, `none` = no match, `some c` = match with optional capture. -/
+abbrev FieldM := Option String → Option (Option String)
+
+/-- `try_fold` over the matchers; `Fragment + Matched` keeps the newer payee (`rhs.payee.or(self.payee)`). -/
+def andFold : List FieldM → Option String → Option (Option String)
+  | [], cur => some cur
+  | m :: ms, cur =>
+    match m cur with
+    | none => none
+    | some cap => andFold ms (cap.orElse fun _ => cur)
+
+/-- `creditor_name: (?P<payee>.*)` on an entry whose creditor is "ACME". -/
+def captureCreditor : FieldM := fun _ => some (some "ACME")
+/-- `payee: ACME`: matches on the payee captured so far (camt053: `fragment.payee`, nothing to fall back on). -/
+def matchPayee : FieldM := fun cur => if cur = some "ACME" then some none else none
 
 end Okane
